@@ -863,9 +863,12 @@ func (x *Exec) collectWrites(st *State, fn *ssa.Function, blocks []*ssa.BasicBlo
 				ws.inFresh = false
 			case *ssa.Convert:
 				if _, ok := t.Type().Underlying().(*types.Slice); ok {
+					// string -> []byte / []rune: a new array
 					ws.w("$alloc", "Int")
 					hn, hs := x.elemHeap(t.Type().Underlying().(*types.Slice).Elem())
+					ws.inFresh = true
 					ws.w(hn, hs)
+					ws.inFresh = false
 				}
 			case *ssa.Store:
 				if env != nil {
@@ -973,6 +976,12 @@ func (x *Exec) callWrites(st *State, caller *ssa.Function, region []*ssa.BasicBl
 				ws.inFresh = true
 				ws.w(hn, hs)
 				ws.inFresh = false
+			} else if al := x.selfAppendCell(c.Args[0], env); al != nil {
+				// a variable that starts nil (zero value) and is only ever assigned append(itself, ..)
+				// or fresh objects: its arrays were allocated during this function
+				ws.inEFresh = true
+				ws.w(hn, hs)
+				ws.inEFresh = false
 			} else {
 				ws.w(hn, hs)
 			}
@@ -1064,7 +1073,19 @@ func (x *Exec) callWrites(st *State, caller *ssa.Function, region []*ssa.BasicBl
 		if len(c.Args) > 0 {
 			arg := c.Args[len(c.Args)-1]
 			if mi, ok := arg.(*ssa.MakeInterface); ok {
+				if env != nil {
+					if cv, ok := env[mi.X]; ok && cv.Loc != nil && cv.Loc.Kind == LCell {
+						ws.cells[cv.Loc.Cell] = true
+						return
+					}
+				}
 				if pt, ok := mi.X.Type().Underlying().(*types.Pointer); ok {
+					if x.rootIsLocalAlloc(mi.X, region, ws) || x.regionFresh(mi.X, region, ws) {
+						ws.inFresh = true
+						x.addTypeWrites(pt.Elem(), ws)
+						ws.inFresh = false
+						return
+					}
 					x.addTypeWrites(pt.Elem(), ws)
 					return
 				}
@@ -1376,9 +1397,36 @@ func (x *Exec) regionFresh1(v ssa.Value, blocks []*ssa.BasicBlock, ws *writeSet,
 			if con := x.contractFor(callee); con != nil && !con.Inline && freshResult(con) {
 				return true
 			}
+			if con := x.contractFor(callee); (con == nil || con.Inline) && returnsFreshAlloc(callee) {
+				return true
+			}
 		}
 	}
 	return false
+}
+
+// returnsFreshAlloc: every return of the (inlined) function yields, as its single result, an object
+// allocated by that activation (an escaping Alloc such as &T{...} / new(T)).
+func returnsFreshAlloc(fn *ssa.Function) bool {
+	if len(fn.Blocks) == 0 || fn.Signature.Results().Len() != 1 {
+		return false
+	}
+	found := false
+	for _, b := range fn.Blocks {
+		for _, ins := range b.Instrs {
+			if r, ok := ins.(*ssa.Return); ok {
+				if len(r.Results) != 1 {
+					return false
+				}
+				al, ok := r.Results[0].(*ssa.Alloc)
+				if !ok || !al.Heap {
+					return false
+				}
+				found = true
+			}
+		}
+	}
+	return found
 }
 
 // fnFresh: on every path the value is nil or an object allocated during the current activation of
@@ -1501,6 +1549,85 @@ func (x *Exec) phiTargets(v ssa.Value, env map[ssa.Value]Val, region []*ssa.Basi
 	return nil, false
 }
 
+// selfAppendCell: v is a load of a slice variable (an Alloc of this function, or a captured one
+// whose Alloc is known) into which only nil, append(<load of the same variable>, ...) results and
+// objects allocated during the function are ever stored, and whose address does not escape
+// otherwise. Returns the Alloc, or nil.
+func (x *Exec) selfAppendCell(v ssa.Value, env map[ssa.Value]Val) ssa.Value {
+	ld, ok := v.(*ssa.UnOp)
+	if !ok || ld.Op != token.MUL {
+		return nil
+	}
+	var al ssa.Value
+	switch a := ld.X.(type) {
+	case *ssa.Alloc:
+		al = a
+	default:
+		if env != nil {
+			if cv, ok := env[ld.X]; ok && cv.Loc != nil && cv.Loc.Kind == LCell && cv.Loc.Src != nil {
+				al = cv.Loc.Src
+			}
+		}
+	}
+	if al == nil {
+		return nil
+	}
+	if _, isSlice := al.Type().(*types.Pointer).Elem().Underlying().(*types.Slice); !isSlice {
+		return nil
+	}
+	var isSelf func(w ssa.Value, cell ssa.Value) bool
+	isSelf = func(w ssa.Value, cell ssa.Value) bool {
+		if c, ok := w.(*ssa.Const); ok && c.IsNil() {
+			return true
+		}
+		if call, ok := w.(*ssa.Call); ok {
+			if b, ok := call.Call.Value.(*ssa.Builtin); ok && b.Name() == "append" {
+				if l2, ok := call.Call.Args[0].(*ssa.UnOp); ok && l2.Op == token.MUL && l2.X == cell {
+					return true
+				}
+			}
+		}
+		return x.fnFresh(w, map[ssa.Value]bool{})
+	}
+	var holds func(cell ssa.Value) bool
+	holds = func(cell ssa.Value) bool {
+		refs := cell.Referrers()
+		if refs == nil {
+			return false
+		}
+		for _, r := range *refs {
+			switch t := r.(type) {
+			case *ssa.Store:
+				if t.Addr != cell || !isSelf(t.Val, cell) {
+					return false
+				}
+			case *ssa.UnOp:
+				if t.Op != token.MUL {
+					return false
+				}
+			case *ssa.DebugRef:
+			case *ssa.MakeClosure:
+				fnc, ok := t.Fn.(*ssa.Function)
+				if !ok {
+					return false
+				}
+				for i, b := range t.Bindings {
+					if b == cell && (i >= len(fnc.FreeVars) || !holds(fnc.FreeVars[i])) {
+						return false
+					}
+				}
+			default:
+				return false
+			}
+		}
+		return true
+	}
+	if !holds(al) {
+		return nil
+	}
+	return al
+}
+
 // argForName: the call argument bound to the callee's parameter (or receiver) of that name.
 func argForName(c *ssa.CallCommon, name string) ssa.Value {
 	sig := c.Signature()
@@ -1584,7 +1711,7 @@ func (x *Exec) rootIsLocalAlloc(addr ssa.Value, blocks []*ssa.BasicBlock, ws *wr
 			}
 			return false
 		default:
-			return ws != nil && ws.freshVals[addr]
+			return ws != nil && (ws.freshVals[addr] || x.regionFresh(addr, blocks, ws))
 		}
 	}
 }
